@@ -728,8 +728,10 @@ impl<RW: QueueRW<T>, T> FutInnerRecv<RW, T> {
                 Ok(v) => return Ok(v),
                 Err(TryRecvError::Disconnected) => return Err(RecvError),
                 Err(TryRecvError::Empty) => {
+                    vpoint!(B_EMPTY);
                     let queue = &self.reader.queue;
                     let count = self.reader.reader.load_count(Relaxed);
+                    vpoint!(B_BEFORE_WAIT);
                     queue
                         .waiter
                         .wait(count, queue.flag_for(count), &queue.writers);
